@@ -71,6 +71,10 @@ ROLE_CONTEXTS = [
     ('link-dest-angle', 'w [t](<{c}>) z'), ('link-title', 'w [t](/u "{c}") z'), ('image-alt', 'w ![{c}](/i) z'),
     ('image-src', 'w ![a]({c}) z'), ('autolink', 'w <http://a.b/{c}> z'), ('fence-content', '```\n{c}\n```'), ('fence-info', '```{c}\nx\n```'),
     ('indented-code', '    {c}'), ('html-block', '<div>{c}</div>'), ('refdef-title', '[r]: /u "{c}"\n\n[r]'), ('escaped', 'w \\{c} z'),
+    # one construct inside another (a renderer may treat an element differently depending on what it is nested in)
+    ('heading-code', '# w `{c}` z'), ('setext-code', 'w `{c}`\n---'), ('emphasis-code', 'w *x `{c}`* z'), ('link-text-code', 'w [`{c}`](/u) z'),
+    ('table-cell-code', '| `{c}` | x |\n| --- | --- |'), ('heading-link-dest', '## [t]({c})'), ('heading-image-src', '## ![a]({c})'),
+    ('strong-link-title', '**[t](/u "{c}")**'), ('quote-list-code', '> - `{c}`'), ('strikethrough-emphasis', '~~*{c}*~~'),
 ]
 
 
